@@ -67,6 +67,11 @@ fn depth1(l0: &[Expr], s0: &[Expr]) -> Vec<Expr> {
     for x in l0 { for op in ['+', '-', '%'] { v.push(Expr::Unary(op, b(x))); } v.push(Expr::Paren(b(x))); v.push(Expr::Func(24, "ABS", vec![x.clone()], false)); v.push(Expr::Func(4, "SUM", vec![x.clone()], true)); v.push(Expr::AttrSum(b(x))); }
     for (op, _) in BINOPS { for x in l0 { for y in s0 { v.push(Expr::Binary(op, b(x), b(y))); v.push(Expr::Binary(op, b(y), b(x))); } } }
     v.push(Expr::Func(19, "PI", vec![], false));
+    // argument counts at the limits of the count field: 30 (the BIFF8 maximum), and for BIFF12 127, 128, 130 and 255
+    for n in (if l0.iter().any(|e| matches!(e, Expr::Ref(r) if r.col > 255)) { vec![30usize, 127, 128, 130, 255] } else { vec![30usize] }) {
+        v.push(Expr::Func(4, "SUM", (0..n).map(|k| Expr::Int(k as u16 + 1)).collect(), true));
+        v.push(Expr::Func(0, "COUNT", (0..n).map(|k| if k % 2 == 0 { s0[0].clone() } else { Expr::Int(k as u16) }).collect(), true));
+    }
     // CHOOSE with 1..4 choices (its PtgAttrChoose jump table has one entry more than choices), omitted arguments
     for x in s0 { for n in 1..=4usize {
         let mut args = vec![Expr::Int(1)]; for k in 0..n { args.push(if k % 2 == 0 { x.clone() } else { s0[(k * 5) % s0.len()].clone() }); }
